@@ -18,6 +18,7 @@ import (
 	"github.com/jcmoraisjr/haproxy-ingress/pkg/controller/config"
 	convtypes "github.com/jcmoraisjr/haproxy-ingress/pkg/converters/types"
 	"github.com/jcmoraisjr/haproxy-ingress/pkg/haproxy"
+	"github.com/jcmoraisjr/haproxy-ingress/pkg/utils"
 )
 
 // VerifCache is the method set of the real cache facade.
@@ -56,4 +57,16 @@ func VerifNewServices(ctx context.Context, cli client.Client, cfg *config.Config
 		svcleader:    &svcLeader{ctx: ctx, log: log},
 		svcstatusing: initSvcStatusIng(ctx, cfg, cli, cache.(*c), func(client.Object) {}),
 	}
+}
+
+// VerifSetReloadQueue assigns the reload queue, the way setup() does when
+// --reload-interval is configured. The same queue should be given to the
+// haproxy instance (InstanceOptions.ReloadQueue).
+func (s *Services) VerifSetReloadQueue(q utils.QueueFacade) {
+	s.reloadQueue = q
+}
+
+// VerifReloadHAProxy runs the sync func of the reload queue once.
+func (s *Services) VerifReloadHAProxy(ctx context.Context) error {
+	return s.reloadHAProxy(ctx, nil)
 }
